@@ -6,9 +6,21 @@ including the identity of every popped event (an integer `vid` attached to each 
 also survives the JSON round trip) and the raw `_queue` array after every JSON round trip and at
 the end of the sequence.
 
+Further scenario families (checklist audit): an event object pushed into two queues; the caller's own
+list handed to EventQueue(events)/add_events must come back untouched and is then trashed by the caller;
+JSON round trips through a string, a file path and a file-like buffer; timestamps / t given as numpy
+int64 or integral floats, tuples instead of lists, timestamps beyond 2**63; the `queue` property;
+a sample of the scenarios is re-executed in a second process with another PYTHONHASHSEED.
+
 Monitor: C11's statements evaluated on the implementation's trace against a shadow multiset
 (pop-min, exactly-the-current-events in order, len/empty/last, restored queue == original)."""
+import io
 import json
+import numbers
+import os
+import subprocess
+import sys
+import tempfile
 import time
 
 from harness.core import z, coq_list, coq_bool, coq_opt
@@ -16,7 +28,7 @@ from harness.core import z, coq_list, coq_bool, coq_opt
 PID = "C11"
 GEN_GROUPS = ["Events", "EventParams"]
 TARGETS = ["coq/Props/C11.vo", "coq/Model/Events.vo", "coq/Model/HeapQ.vo"]
-CASES = {"quick": 400, "thorough": 4000}
+CASES = {"quick": 400, "thorough": 2500}
 MAXLEN = {"quick": 200, "thorough": 2000}
 CORR_HEADER = ("From Coq Require Import ZArith List Bool.\n"
                "From ACN Require Import Base.Num Model.Events.\nImport ListNotations.\n"
@@ -24,7 +36,9 @@ CORR_HEADER = ("From Coq Require Import ZArith List Bool.\n"
 CHECK_FN = "check_c11m"
 SHARD = 25
 NQ_CHOICES = [1, 1, 2, 2, 2, 3, 3]
-RULE = ("scenarios of 1-3 EventQueue instances in one process with interleaved ops; every list returned by "
+RULE = ("scenarios of 1-3 EventQueue instances in one process with interleaved ops, events shared between queues, "
+        "caller-owned lists checked and trashed, JSON via string/file/buffer, numpy/float/huge timestamps, the queue "
+        "property, a sample re-run in a second process with another PYTHONHASHSEED; every list returned by "
         "get_current_events is held and re-read after every later op and at the end; clobber steps mutate returned "
         "lists; random op sequences (<=200 ops quick, <=2000 thorough) over EventQueue(events)/add_event/add_events/"
         "get_event/get_current_events(t)/len/empty/get_last_timestamp/to_json+from_json, generated while "
@@ -45,7 +59,8 @@ BADP = 999983                                       # stands for a precedence th
 # ---------------------------------------------------------------------------------------------
 # running the real implementation
 # ---------------------------------------------------------------------------------------------
-def _mk_event(ts, kind, vid):
+def _mk_event(ts, kind, vid, dt=None):
+    ts = _conv(ts, dt)
     from acnportal.acnsim.events import PluginEvent, UnplugEvent, RecomputeEvent
     from acnportal.acnsim.models import EV, Battery
     if kind == "Recompute":
@@ -65,9 +80,30 @@ def _prec(p):
     return int(p)
 
 
+def _num(x):
+    """python int for any integral number (int, numpy integer, integral float); anything else unchanged"""
+    if isinstance(x, bool):
+        return x
+    if isinstance(x, numbers.Integral):
+        return int(x)
+    if isinstance(x, numbers.Real) and x == x and x not in (float("inf"), float("-inf")) and int(x) == x:
+        return int(x)
+    return x
+
+
+def _conv(x, dt):
+    """the caller's choice of number type for a timestamp / period index"""
+    if dt == "np":
+        import numpy as np
+        return np.int64(x) if -2**62 < x < 2**62 else x
+    if dt == "float":
+        return float(x) if abs(x) < 2**50 else x
+    return x
+
+
 def _ev_obs(e):
     """(timestamp attribute, precedence, vid, event_type) of a returned event"""
-    return [getattr(e, "timestamp", None), _prec(getattr(e, "precedence", None)), getattr(e, "vid", -1),
+    return [_num(getattr(e, "timestamp", None)), _prec(getattr(e, "precedence", None)), getattr(e, "vid", -1),
             getattr(e, "event_type", "?")]
 
 
@@ -76,7 +112,7 @@ def _arr_obs(q):
     for entry in q._queue:
         try:
             ts, e = entry
-            out.append([ts] + _ev_obs(e))
+            out.append([_num(ts)] + _ev_obs(e))
         except Exception:  # noqa  (an entry that is not a (ts, event) pair)
             out.append([None, None, BADP, -1, "?"])
     return out
@@ -86,22 +122,34 @@ class Runner:
     """Applies ops to a real EventQueue; after a JSON round trip it also keeps the ORIGINAL queue as a
     twin that receives the same ops, to observe 'a restored queue behaves identically'."""
 
-    def __init__(self, init):
+    def __init__(self, init, pool=None):
         from acnportal.acnsim.events import EventQueue
         self.EventQueue = EventQueue
+        self.pool = pool if pool is not None else {}    # vid -> event object, shared by all queues of a scenario
         self.objs = {}          # vid -> event object living in the main queue
         self.twin = None
         self.twin_objs = {}
+        self.init_problem = None
         evs = [self._obj(t) for t in (init or [])]
+        before = list(evs)
         self.q = EventQueue(evs) if init is not None else EventQueue()
+        # the list belongs to the caller: the constructor must leave it alone, and the caller may do
+        # whatever it likes with it afterwards
+        if len(evs) != len(before) or any(a is not b for a, b in zip(evs, before)):
+            self.init_problem = "EventQueue(events) modified the caller's list"
+        del evs[:]
+        evs.append(_Junk())
         self.results = []
         self.last_raw = None    # the object returned by the last non-JSON op (for held-list tracking)
 
     def _obj(self, triple, twin=False):
-        ts, kind, vid = triple
+        ts, kind, vid = triple[:3]
         objs = self.twin_objs if twin else self.objs
         if vid not in objs:
-            e = _mk_event(ts, kind, vid)
+            e = self.pool.get(vid)
+            if e is None:
+                e = _mk_event(ts, kind, vid, triple[3] if len(triple) > 3 else None)
+                self.pool[vid] = e
             objs[vid] = e
             if not twin and self.twin is not None and vid not in self.twin_objs:
                 self.twin_objs[vid] = e       # new events are shared between the queue and its twin
@@ -110,13 +158,24 @@ class Runner:
     def _do(self, q, op, twin):
         k = op[0]
         if k == "add":
-            return q.add_event(self._obj(op[1:4], twin))
+            return q.add_event(self._obj(op[1:5], twin))
         if k == "addmany":
-            return q.add_events([self._obj(t, twin) for t in op[1]])
+            evs = [self._obj(t, twin) for t in op[1]]
+            if len(op) > 2 and op[2] == "tuple":
+                return q.add_events(tuple(evs))
+            before = list(evs)
+            r = q.add_events(evs)
+            if len(evs) != len(before) or any(a is not b for a, b in zip(evs, before)):
+                return "add_events modified the caller's list"
+            del evs[:]                     # the caller reuses its list for something else
+            evs.append(_Junk())
+            return r
         if k == "get":
             return q.get_event()
         if k == "cur":
-            return q.get_current_events(op[1])
+            return q.get_current_events(_conv(op[1], op[2] if len(op) > 2 else None))
+        if k == "queue":
+            return q.queue
         if k == "len":
             return len(q)
         if k == "empty":
@@ -138,6 +197,18 @@ class Runner:
             if isinstance(r, list) and all(hasattr(e, "precedence") for e in r):
                 return ["evs", [_ev_obs(e) for e in r]]
             return ["value", repr(r)]
+        if k == "queue":
+            if not isinstance(r, list):
+                return ["value", repr(r)]
+            out = []
+            for entry in r:
+                try:
+                    ts, e = entry
+                    out.append([_num(ts)] + _ev_obs(e))
+                except Exception:  # noqa
+                    out.append([None, None, BADP, -1, "?"])
+            return ["arr", out]
+        r = _num(r) if k in ("len", "last") and r is not None else r
         if k == "len":
             return ["len", r] if isinstance(r, int) and not isinstance(r, bool) else ["value", repr(r)]
         if k == "empty":
@@ -151,10 +222,27 @@ class Runner:
         self.last_raw = None
         if k == "json":
             try:
-                s = self.q.to_json()
-                q2 = self.EventQueue.from_json(s)
+                how = op[1] if len(op) > 1 else "str"
+                if how == "file":
+                    d = tempfile.mkdtemp(prefix="c11json")
+                    path = os.path.join(d, "queue.json")
+                    try:
+                        self.q.to_json(path)
+                        q2 = self.EventQueue.from_json(path)
+                    finally:
+                        if os.path.exists(path):
+                            os.unlink(path)
+                        os.rmdir(d)
+                elif how == "buf":
+                    buf = io.StringIO()
+                    self.q.to_json(buf)
+                    buf.seek(0)
+                    q2 = self.EventQueue.from_json(buf)
+                else:
+                    s = self.q.to_json()
+                    q2 = self.EventQueue.from_json(s)
                 before = _arr_obs(self.q)
-                res = ["json", getattr(q2, "_timestep", None), _arr_obs(q2), before, self.q._timestep]
+                res = ["json", _num(getattr(q2, "_timestep", None)), _arr_obs(q2), before, _num(self.q._timestep)]
                 self.twin, self.twin_objs = self.q, dict(self.objs)
                 self.q = q2
                 self.objs = {}
@@ -190,7 +278,7 @@ class Runner:
 
     def final(self):
         try:
-            return dict(array=_arr_obs(self.q), timestep=self.q._timestep)
+            return dict(array=_arr_obs(self.q), timestep=_num(self.q._timestep))
         except Exception as ex:  # noqa
             return dict(array=[[None, None, BADP, -1, type(ex).__name__]], timestep=None)
 
@@ -208,7 +296,8 @@ class Multi:
     returned by get_current_events and re-reads all of them after every later op."""
 
     def __init__(self, inits):
-        self.rs = [Runner(i) for i in inits]
+        self.pool = {}
+        self.rs = [Runner(i, self.pool) for i in inits]
         self.results = []
         self.held = []          # dict(idx, qi, lst, ids, rec, live)
         self.changes = []       # a held list that no longer holds what it held when returned
@@ -272,6 +361,9 @@ class Multi:
                     except Exception:  # noqa
                         pass
         out = dict(results=self.results, finals=[r.final() for r in self.rs], changes=self.changes)
+        problems = [[qi, r.init_problem] for qi, r in enumerate(self.rs) if r.init_problem]
+        if problems:
+            out["init_problems"] = problems
         # take our junk out again, so that a scenario never depends on what an earlier scenario of this
         # process left in a list that the implementation (wrongly) shares between calls
         for lst in self.clobbered:
@@ -320,7 +412,8 @@ def op_coq(op):
         return "OAdd %s" % _item(op[1:4])
     if k == "addmany":
         return "OAddMany %s" % coq_list([_item(t) for t in op[1]])
-    return {"get": "OGet", "len": "OLen", "empty": "OEmpty", "last": "OLast", "json": "OJson"}.get(k) or "OCurrent %s" % z(op[1])
+    return {"get": "OGet", "len": "OLen", "empty": "OEmpty", "last": "OLast", "json": "OJson",
+            "queue": "OQueue"}.get(k) or "OCurrent %s" % z(op[1])
 
 
 def res_coq(r):
@@ -341,6 +434,8 @@ def res_coq(r):
         return "RBool %s" % coq_bool(r[1])
     if k == "last":
         return "RLast %s" % coq_opt(r[1], z)
+    if k == "arr":
+        return "RQueue %s" % _arr_raw(r[1])
     if k == "json":
         ts = r[1] if isinstance(r[1], int) else BADP
         return "RJson (Some (%s, %s))" % (z(ts), _arr_raw(r[2]))
@@ -353,7 +448,7 @@ def case_coq(inits, ops, impl):
     res = []
     for i, qi, op in real:
         # a returned list that later stopped holding what it held is not representable (model values are immutable)
-        res.append("RJson None" if i in changed else res_coq(impl["results"][i]))
+        res.append("RJson None" if (i in changed or impl.get("init_problems") or impl.get("xproc")) else res_coq(impl["results"][i]))
     fins = []
     for fin in impl["finals"]:
         fins.append("(%s, %s)" % (_arr_raw(fin["array"]), z(fin["timestep"] if isinstance(fin["timestep"], int) else BADP)))
@@ -368,22 +463,24 @@ def case_coq(inits, ops, impl):
 # ---------------------------------------------------------------------------------------------
 PROFILES = ["mixed", "fill_drain", "simulator", "ties", "churn", "json_heavy", "tiny", "hold"]
 WEIGHTS = dict(
-    mixed=dict(add=5, addmany=1, get=3, cur=2, len=1, empty=1, last=1, json=0.3, repush=0.3, clobber=0.2),
-    fill_drain=dict(add=6, addmany=2, get=0.2, cur=0.2, len=0.3, empty=0.3, last=0.3, json=0.1, repush=0.2, clobber=0.1),
-    simulator=dict(add=2, addmany=0.3, get=0, cur=6, len=0.3, empty=1, last=1, json=0.2, repush=0, clobber=0.2),
-    ties=dict(add=5, addmany=1, get=4, cur=1, len=0.5, empty=0.5, last=0.5, json=0.3, repush=0.5, clobber=0.1),
-    churn=dict(add=4, addmany=0, get=4, cur=0.5, len=0.2, empty=0.2, last=0.2, json=0.1, repush=0.2, clobber=0.1),
-    json_heavy=dict(add=4, addmany=1, get=2, cur=1, len=0.5, empty=0.5, last=0.5, json=2, repush=0.3, clobber=0.2),
-    tiny=dict(add=2, addmany=1, get=3, cur=2, len=1, empty=1, last=1, json=1, repush=0.3, clobber=0.5),
+    mixed=dict(add=5, addmany=1, get=3, cur=2, len=1, empty=1, last=1, json=0.3, repush=0.3, clobber=0.2, queue=0.3, xpush=0.3),
+    fill_drain=dict(add=6, addmany=2, get=0.2, cur=0.2, len=0.3, empty=0.3, last=0.3, json=0.1, repush=0.2, clobber=0.1, queue=0.1, xpush=0.2),
+    simulator=dict(add=2, addmany=0.3, get=0, cur=6, len=0.3, empty=1, last=1, json=0.2, repush=0, clobber=0.2, queue=0.2, xpush=0.2),
+    ties=dict(add=5, addmany=1, get=4, cur=1, len=0.5, empty=0.5, last=0.5, json=0.3, repush=0.5, clobber=0.1, queue=0.2, xpush=0.4),
+    churn=dict(add=4, addmany=0, get=4, cur=0.5, len=0.2, empty=0.2, last=0.2, json=0.1, repush=0.2, clobber=0.1, queue=0.1, xpush=0.2),
+    json_heavy=dict(add=4, addmany=1, get=2, cur=1, len=0.5, empty=0.5, last=0.5, json=2, repush=0.3, clobber=0.2, queue=0.3, xpush=0.4),
+    tiny=dict(add=2, addmany=1, get=3, cur=2, len=1, empty=1, last=1, json=1, repush=0.3, clobber=0.5, queue=0.5, xpush=0.4),
     # many retrievals whose results stay held while other queues / later periods are retrieved
-    hold=dict(add=4, addmany=1, get=0.5, cur=5, len=0.3, empty=0.3, last=0.3, json=0.2, repush=0.1, clobber=0.05))
+    hold=dict(add=4, addmany=1, get=0.5, cur=5, len=0.3, empty=0.3, last=0.3, json=0.2, repush=0.1, clobber=0.05, queue=0.1, xpush=0.2))
 
 
 class QGen:
     """op generator for one queue of a scenario (tracks what is pending from the observed results)"""
 
-    def __init__(self, rng, profile, span, neg, nid, init):
+    def __init__(self, rng, profile, span, neg, nid, init, dt=None):
         self.rng, self.profile, self.span, self.neg, self.nid = rng, profile, span, neg, nid
+        self.dt = dt              # None | "np" | "float" | "mixed": number type the caller uses
+        self.others = []          # the generators of the other queues of the scenario
         self.pending = {}
         for t in (init or []):
             self.pending[t[2]] = t
@@ -397,7 +494,13 @@ class QGen:
         vid = self.nid[0]
         self.nid[0] += 1
         ts = lo + rng.randint(0, self.span) - (3 if self.neg and rng.random() < 0.3 else 0)
-        return [ts, rng.choice(KINDS), vid]
+        d = self.pick_dt()
+        return [ts, rng.choice(KINDS), vid] + ([d] if d else [])
+
+    def pick_dt(self):
+        if self.dt == "mixed":
+            return self.rng.choice([None, "np", "float"])
+        return self.dt
 
     def note(self, op, res):
         pending = self.pending
@@ -421,7 +524,16 @@ class QGen:
         if k == "add":
             return ["add"] + self.fresh(lo)
         if k == "addmany":
-            return ["addmany", [self.fresh(lo) for _ in range(rng.choice([0, 1, 2, 3, 8]))]]
+            op = ["addmany", [self.fresh(lo) for _ in range(rng.choice([0, 1, 2, 3, 8]))]]
+            return op + (["tuple"] if rng.random() < 0.25 else [])
+        if k == "xpush":
+            # an event object that is pending in ANOTHER queue of the scenario is pushed here as well
+            cands = [t for g in self.others for t in g.pending.values() if t[2] not in pending]
+            if not cands:
+                return None
+            return ["add"] + list(rng.choice(sorted(cands, key=lambda t: t[2])))
+        if k == "json":
+            return ["json"] + rng.choice([[], [], [], ["file"], ["buf"]])
         if k == "repush":
             if not pending:
                 return None
@@ -439,27 +551,31 @@ class QGen:
                     t = rng.choice([tss[0] - 1, tss[-1], tss[-1] + 1])
             else:
                 t = rng.randint(-1, span + 1)
-            return ["cur", t]
+            d = self.pick_dt()
+            return ["cur", t] + ([d] if d else [])
         return [k]
 
 
 def gen_one(rng, maxlen, profile=None, nq=None):
     profile = profile or rng.choice(PROFILES)
     nq = nq or rng.choice(NQ_CHOICES)
-    span = rng.choice([1, 3, 8, 40, 1000]) if profile != "ties" else rng.choice([1, 2])
+    span = rng.choice([1, 3, 8, 40, 1000, 1000, 10**12, 2**65]) if profile != "ties" else rng.choice([1, 2])
     n = rng.randint(1, maxlen) if profile != "tiny" else rng.randint(0, 8)
+    dt = rng.choice([None] * 15 + ["np", "np", "float", "mixed", "mixed"])
     if rng.random() < 0.5:
         n = min(n, max(8, maxlen // 4))
     nid = [0]
     neg = rng.random() < 0.15          # some cases use negative timestamps as well
     inits, gens = [], []
     for _ in range(nq):
-        g0 = QGen(rng, profile, span, neg, nid, None)
+        g0 = QGen(rng, profile, span, neg, nid, None, dt)
         init = None
         if rng.random() < 0.6:
             init = [g0.fresh() for _ in range(rng.choice([0, 1, 2, 5, 12, 30]))]
         inits.append(init)
-        gens.append(QGen(rng, profile, span, neg, nid, init))
+        gens.append(QGen(rng, profile, span, neg, nid, init, dt))
+    for g in gens:
+        g.others = [h for h in gens if h is not g]
     run = Multi(inits)
     ops = []
     qi = 0
@@ -480,7 +596,7 @@ def gen_one(rng, maxlen, profile=None, nq=None):
             # like Simulator._process_event: a popped plug-in schedules its unplug
             for o in res[1]:
                 if o[3] == "Plugin" and rng.random() < 0.8:
-                    op2 = ["add", g.clock + rng.randint(0, span), "Unplug", nid[0]]
+                    op2 = ["add", g.clock + rng.randint(0, min(span, 1000)), "Unplug", nid[0]]
                     nid[0] += 1
                     res2 = run.apply(qi, op2)
                     ops.append([qi, op2])
@@ -519,6 +635,14 @@ CORPUS = [
      [[0, ["cur", 1]], [1, ["cur", 2]], [0, ["cur", 3]], [1, ["cur", 3]], [0, ["len"]], [1, ["empty"]]]),
     # a caller that trashes the list it was given; the queue must not notice
     _q0([[1, "Plugin", 0], [2, "Plugin", 1], [2, "Unplug", 2]], [["cur", 1], ["clobber"], ["len"], ["cur", 2], ["clobber"], ["len"], ["get"]]),
+    # one event object pending in two queues at once; JSON through a file and through a buffer; numpy / float numbers
+    ([[[2, "Plugin", 0, "np"], [2, "Unplug", 1, "float"]], None],
+     [[1, ["add", 2, "Plugin", 0]], [1, ["add", 1, "Recompute", 2, "np"]], [0, ["json", "file"]], [1, ["json", "buf"]],
+      [0, ["queue"]], [1, ["cur", 2, "float"]], [0, ["cur", 2, "np"]], [0, ["last"]], [1, ["len"]]]),
+    # the caller's list given to add_events is reused by the caller; a tuple works as well; timestamps beyond 2**63
+    _q0([[2 ** 65, "Unplug", 0]], [["addmany", [[5, "Plugin", 1], [2 ** 65 + 1, "Recompute", 2], [5, "Unplug", 3]]],
+                                   ["addmany", [[5, "Recompute", 4]], "tuple"], ["queue"], ["last"], ["cur", 5], ["json"],
+                                   ["get"], ["get"], ["get"]]),
     # three queues, one of them restored from JSON in between
     ([None, [[5, "Plugin", 0]], None],
      [[0, ["add", 1, "Recompute", 1]], [2, ["add", 1, "Unplug", 2]], [0, ["cur", 1]], [1, ["json"]], [2, ["cur", 1]],
@@ -548,7 +672,54 @@ def gen_cases(rng, n, tier):
             inits, ops = _shrink(inits, ops)
             impl = run_impl(inits, ops)
         cases.append(make_case(inits, ops, impl, profile))
-    return cases[:n]
+    cases = cases[:n]
+    _xproc(cases[:len(CORPUS) + (25 if tier == "quick" else 150)])
+    return cases
+
+
+XPROC_HASHSEED = "4242"
+
+
+def _plain(o):
+    from harness.core import jsonable
+    return json.loads(json.dumps(o, default=jsonable))
+
+
+def _xproc_main():
+    """(second process) re-execute the scenarios given on stdin and print what the implementation did"""
+    scen = json.load(sys.stdin)
+    out = [_plain(run_impl(inits, ops)) for inits, ops in scen]
+    sys.stdout.write("\nXPROC-RESULT " + json.dumps(out) + "\n")
+
+
+def _xproc(cases):
+    """determinism across processes: the same scenarios in a fresh interpreter with another PYTHONHASHSEED
+    must give the same answers, the same arrays, the same (absence of) changes in held lists"""
+    from harness.core import ROOT
+    env = dict(os.environ, PYTHONHASHSEED=XPROC_HASHSEED)
+    payload = json.dumps([[c["input"]["inits"], c["input"]["ops"]] for c in cases])
+    try:
+        p = subprocess.run([sys.executable, "-c", "from harness import c11; c11._xproc_main()"], input=payload,
+                           cwd=ROOT, env=env, stdout=subprocess.PIPE, stderr=subprocess.STDOUT, text=True, timeout=600)
+        line = [ln for ln in p.stdout.split("\n") if ln.startswith("XPROC-RESULT ")]
+        other = json.loads(line[-1][len("XPROC-RESULT "):]) if line else None
+        err = None if other is not None else "second process failed: " + p.stdout[-300:]
+    except Exception as ex:  # noqa
+        other, err = None, "second process failed: %s" % type(ex).__name__
+    for i, c in enumerate(cases):
+        mine = _plain(c["impl"])
+        theirs = other[i] if other is not None and i < len(other) else None
+        if theirs != mine:
+            diff = err
+            if diff is None:
+                for k, (a, b) in enumerate(zip(mine["results"], theirs["results"])):
+                    if a != b:
+                        diff = "op %d %s answered %r here and %r there" % (k, json.dumps(c["input"]["ops"][k])[:60], a, b)
+                        break
+                else:
+                    diff = "final arrays / held lists differ"
+            c["impl"]["xproc"] = diff
+            c["coq"] = case_coq(c["input"]["inits"], c["input"]["ops"], c["impl"])
 
 
 # ---------------------------------------------------------------------------------------------
@@ -637,6 +808,12 @@ class _Shadow:
                 return "%s: returned keys not in (timestamp, unplug<plugin<recompute) order: %r" % (where, keys)
             for o in r[1]:
                 self.drop(o[2])
+        elif k == "queue":
+            if r[0] != "arr":
+                return "%s: gave %r" % (where, r)
+            got = sorted(a[3] for a in r[1])
+            if got != self.vids():
+                return "%s: the queue property holds %r, pending are %r" % (where, got, self.vids())
         elif k == "len":
             n = sum(p[2] for p in pend.values())
             if r != ["len", n]:
@@ -667,6 +844,10 @@ class _Shadow:
 def monitor_trace(inits, ops, impl):
     shadows = [_Shadow(i) for i in inits]
     results = impl["results"]
+    for qi, what in impl.get("init_problems", []):
+        return "queue %d: %s" % (qi, what)
+    if impl.get("xproc"):
+        return "a second process with PYTHONHASHSEED=%s behaves differently: %s" % (XPROC_HASHSEED, impl["xproc"])
     if len(results) != len(ops):
         return "trace length mismatch"
     changes = sorted(impl.get("changes", []), key=lambda c: c["after_op"])
